@@ -348,6 +348,11 @@ def scope_events(encs=SCOPE_ENCODINGS):
         ev.append(['preamble', PROBE_TEXT, e, 4, None, None])
     for e in encs:
         ev.append(['meta', PROBE_META, e])
+    # explicit line endings with an inherited encoding (what the object
+    # model passes when it re-serialises a parsed file)
+    ev.append(['preamble', PROBE_TEXT, None, 4, 'unix', None])
+    ev.append(['preamble', PROBE_TEXT.replace('\n', '\r\n'), None, 4, 'dos',
+               None])
     ev.append(['diff', b'a\n', None, None, None])
     ev.append(['diff', 'a\n'.encode('utf-16'), None, None, None])
     ev.append(['diff', 'a\r\n'.encode('utf-16'), None, 'utf-16', None])
